@@ -243,3 +243,5 @@ fire("C03", B, "            if self._hash_fn(self._i_to_arg[i]) != self._hash_fn
 fire("C10", L, "            and item.line_offset is not None\n            and (item.line_offset > 0) == (prev_item.line_offset > 0)\n", "", "the original defect: opposite-sign entry merged as a continuation (R10.1)")
 M.append(dict(kind="fire", pid="C03", file=B, old="    # Now that we know the total number of cellvars, incremement all the freevar\n    # indices by the number of cellvars, for each arg\n    for block_index, block in enumerate(blocks):\n        for instruction_index, instruction in enumerate(block):\n            arg = instruction.arg\n            if isinstance(arg, Freevar):\n                args[block_index, instruction_index] += len(cellvars)\n\n    # Iterate through all blocks", new="    # Iterate through all blocks",
               more=[("    # Finally go assemble the bytes and the line mapping\n", "    for block_index, block in enumerate(blocks):\n        for instruction_index, instruction in enumerate(block):\n            arg = instruction.arg\n            if isinstance(arg, Freevar):\n                args[block_index, instruction_index] += len(cellvars)\n\n    # Finally go assemble the bytes and the line mapping\n")], why="the original defect: an operand grows after the layout (R03.7)"))
+M.append(dict(kind="fire", pid="C03", file=B, old="    _hash_fn: Callable[[T], Hashable] = field(default=_identity)\n\n    def __setitem__", new="    _hash_fn: Callable[[T], Hashable] = field(default=hash)\n\n    def __setitem__", why="the original defect: tables keyed by hash (R03.3)"))
+fire("C03", L, "        # Stays none if there is no bytecode\n        bytecode_offset = None\n", "", "the original defect: loop variable read after an empty loop (R03.U)")
